@@ -24,7 +24,7 @@ REAL, STUBBED = C.REAL, C.STUBBED
 
 
 def budget(tier):
-    return dict(nights=110, wall_s=170) if tier == "quick" else dict(nights=3000, wall_s=1700)
+    return dict(nights=250, wall_s=240) if tier == "quick" else dict(nights=3000, wall_s=1700)
 
 
 WORLD = dict(offices=["G", "S", "H", "H"], unit_types=["precinct", "precinct", "county"], n_states=(1, 3), n_counties=(2, 6),
